@@ -267,6 +267,9 @@ func normOp(o *Op) {
 	if o.UP == nil {
 		o.UP = [][2]string{}
 	}
+	if o.DurT == nil {
+		o.DurT = []string{}
+	}
 }
 
 func (h *History) newConn(name string, version int, id string) *conn {
